@@ -333,7 +333,7 @@ pub fn run(ctx: &Ctx) -> i32 {
         let sectors = if large { sector_subset(ne, false) } else { all_sectors(ne) };
         let kk = if large { 1 } else { k };
         let per_sector = sector_points(&case, &sectors[0], kk, &roles).len() * 2;
-        let budget = (tier.pick(1500, 4000) / (case.nl * case.nl).max(1)).max(per_sector);
+        let budget = (tier.pick(1500, 2000) / (case.nl * case.nl).max(1)).max(per_sector);
         let fit = (budget / per_sector.max(1)).max(1);
         let stride = if large { 1 } else { (sectors.len() + fit - 1) / fit };
         let max_pts = tier.pick(10usize, 60);
